@@ -7,7 +7,8 @@ Definition no_commit (evs : list ev) : Prop := ~ In Commit evs.
 Lemma step_committed g s e : e <> Commit -> s_committed (step g s e) = s_committed s.
 Proof.
   intro Hne. destruct e as [objs ents assoc| | | |a]; simpl.
-  - destruct (g_versioning g) eqn:Hv; [apply flush_committed; exact Hv|].
+  - destruct (hier_pass_parts g (flush g s objs ents assoc)) as [_ [_ [_ [_ [Ec _]]]]]. rewrite Ec.
+    destruct (g_versioning g) eqn:Hv; [apply flush_committed; exact Hv|].
     destruct (flush_off g s objs ents assoc Hv) as [_ [_ [_ [_ [E _]]]]]. exact E.
   - contradiction.
   - reflexivity.
@@ -46,10 +47,10 @@ Qed.
 
 (* the error flag hypothesis holds for every reachable state of a consistent configuration *)
 Theorem as_if_never_attempted_reachable g p1 failed rest :
-  cfg_consistent g -> at_boundary (run g p1) -> no_commit failed ->
+  cfg_consistent g -> flat_hier g -> at_boundary (run g p1) -> no_commit failed ->
   run g (p1 ++ failed ++ [Rollback] ++ rest) = run g (p1 ++ rest).
 Proof.
-  intros CC Hb Hnc.
+  intros CC FH Hb Hnc.
   assert (E1 : run g (p1 ++ failed ++ [Rollback] ++ rest) =
                fold_left (step g) (failed ++ [Rollback] ++ rest) (run g p1))
     by (unfold run; rewrite fold_left_app; reflexivity).
@@ -58,7 +59,7 @@ Proof.
   rewrite E1, E2. apply as_if_never_attempted; [exact Hb | exact Hnc|].
   assert (E3 : fold_left (step g) failed (run g p1) = run g (p1 ++ failed))
     by (unfold run; rewrite fold_left_app; reflexivity).
-  rewrite E3, !(reachable_no_error _ _ CC). reflexivity.
+  rewrite E3, !(reachable_no_error _ _ CC FH). reflexivity.
 Qed.
 
 (* a commit puts the machine at a boundary; so does a rollback *)
